@@ -610,6 +610,10 @@ func (f *memFile) Write(p []byte) (int, error) {
 		// The file was opened for reading only.
 		return 0, os.ErrPermission
 	}
+	if lenp == 0 {
+		// Writing nothing changes nothing, not even past the end of the data.
+		return 0, nil
+	}
 	if f.flag&os.O_APPEND != 0 {
 		// Every write appends, wherever the file is positioned.
 		f.pos = len(f.n.data)
